@@ -212,7 +212,8 @@ def run(prop, tier, seed, replay, work, t0):
         lines.append('VIOLATION property=%s replay=%s' % (prop, os.path.relpath(path, lib.VERIF)))
         n_unknown += 1
         exit_code = 1
-    # a script on which the code under verification raises an internal error (NameError / AttributeError / TypeError
+    # a script on which the code under verification raises an internal error (NameError / AttributeError / TypeError /
+    # LookupError / ZeroDivisionError / RecursionError
     # originating in /repo/scales) out of one of its entry points, where the model predicts a defined outcome
     if crashes:
         crashes.sort(key=lambda c: len(json.dumps(c['script'])))
